@@ -1195,6 +1195,8 @@ _MAXIMAL_OCTET = b"\xff"
 _MAXIMAL_OCTET_VALUE = ord(_MAXIMAL_OCTET)
 _AT_SIGN_VALUE = ord("@")
 _LEFT_SQUARE_BRACKET_VALUE = ord("[")
+_UPPERCASE_Z_VALUE = ord("Z")
+_LEFT_CURLY_BRACKET_VALUE = ord("{")
 
 
 def _wire_length(labels):
@@ -1305,6 +1307,10 @@ def _absolute_successor(name: Name, origin: Name, prefix_ok: bool) -> Name:
             # skipped the most minimal successor, namely "[".
             if octet == _AT_SIGN_VALUE:
                 octet = _LEFT_SQUARE_BRACKET_VALUE
+            elif octet == _UPPERCASE_Z_VALUE:
+                # For the same reason "Z" compares as "z", so the next octet in the
+                # canonical order is "{"; "[" would sort before the name itself.
+                octet = _LEFT_CURLY_BRACKET_VALUE
             else:
                 octet += 1
             octets[i] = octet
